@@ -150,7 +150,8 @@ O2 == <<"nonlit", "o2">>
 MacConstNames == { <<"X">>, <<"m","X">>, <<"n","m","X">>, <<"n","Y">> }
 MacConstVals == {O1, O2}
 MacValsF == { L1, Pct(<<"X">>), Pct(<<"m","X">>), Pct(<<"Y">>), Pct(<<"W">>),
-              R(<<"gin","macro">>, <<"W">>, "bare"), <<"list", <<Pct(<<"W">>), Pct(<<"W">>)>>>> }
+              R(<<"gin","macro">>, <<"W">>, "bare"), R(<<"gin","macro">>, <<"W">>, "call"),    \* the macro referenced explicitly
+              <<"list", <<Pct(<<"W">>), Pct(<<"W">>)>>>> }
 MacValsM == { L1, L2, R(<<"m","g">>, <<>>, "call") }
 MacValsG == { L1 }
 MacFilter(sc, c, v) ==
@@ -158,6 +159,11 @@ MacFilter(sc, c, v) ==
   \/ c.sel = <<"gin","macro">> /\ v \in MacValsM /\ sc \in {<<"W">>, <<"X">>}
   \/ c.sel = <<"m","g">> /\ v \in MacValsG /\ sc = <<>>
 MacBindVals == MacValsF \cup MacValsM \cup MacValsG
+\* scenario model: a macro definition and the ways of referring to it
+MacRefVals == { L1, Pct(<<"W">>), R(<<"gin","macro">>, <<"W">>, "bare"), R(<<"gin","macro">>, <<"W">>, "call"), R(<<"gin","macro">>, <<"X">>, "call") }
+MacRefFilter(sc, c, v) ==
+  \/ c.sel = <<"m","f">> /\ v \in MacRefVals /\ sc = <<>>
+  \/ c.sel = <<"gin","macro">> /\ v = L1 /\ sc \in {<<"W">>, <<"X">>}
 \* constant abbreviations only (scenario export for C05)
 MacPctVals == { Pct(<<"X">>), Pct(<<"m","X">>), Pct(<<"Y">>) }
 MacPctFilter(sc, c, v) == c.sel = <<"m","f">> /\ v \in MacPctVals /\ sc = <<>>
